@@ -575,6 +575,207 @@ theorem C06_swap_sites_match_model :
     SSVerif.Generated.feSwapSites = modelSites ∧ SSVerif.Generated.feSwapMacros = modelMacros ∧
     SSVerif.Generated.feSwapInit = modelInit := ⟨rfl, rfl, rfl⟩
 
+/-! ## the recorded statements, *read* as steps on a sample, are the model's per-cell functions
+
+`C06_swap_sites_match_model` pins the text.  Here the text is given a meaning: every recorded
+statement is read as one step on the sample in flight (`readStmt`; this reading of the C statements
+is the trusted part), each `for` loop of a function is the statements from one load
+(`int16sample=…[i]` / `float32sample=in[i]`) to the next, and the composition of the steps of each
+loop is proved equal to the hand-written `cellToOvf` / `cellToSpch` — for the text regenerated from
+the current sources. -/
+
+/-- one recorded statement as a step on the sample in flight -/
+inductive Step
+  /-- `T sample = SRC[i]` -/
+  | load
+  /-- `if (fe->swap) SWAP_*(&sample)` -/
+  | swapLocal
+  /-- `fe->overflow_samps[IDX] = (float32)sample / FLOAT32_SCALE` -/
+  | storeOvf (idx : String)
+  /-- `if (fe->swap) SWAP_FLOAT32(fe->overflow_samps + IDX)` -/
+  | swapStored (idx : String)
+  /-- `if (fe->dither) sample += (int16)(…)` -/
+  | ditherInt
+  /-- `fe->spch[…] = sample` (int16 → float32 conversion) -/
+  | storeSpch
+  /-- `fe->spch[…] = sample * FLOAT32_SCALE` -/
+  | storeSpchUp
+  /-- `fe->spch[…] = (sample * FLOAT32_SCALE + (… ? FLOAT32_DITHER : 0.0))` -/
+  | storeSpchUpDither
+  /-- anything else (moves of whole blocks, calls) — not part of a per-sample loop -/
+  | other
+  deriving DecidableEq, Repr
+
+def readStmt (s : String) : Step :=
+  if s = "int16sample=(*spch)[i]" ∨ s = "int16sample=inptr[i]" ∨ s = "int16sample=orig[i]" ∨ s = "int16sample=in[i]"
+      ∨ s = "float32sample=in[i]" then .load
+  else if s = "if(fe->swap)SWAP_INT16(&sample)" ∨ s = "if(fe->swap)SWAP_FLOAT32(&sample)" then .swapLocal
+  else if s = "fe->overflow_samps[fe->num_overflow_samps+i]=(float32)sample/FLOAT32_SCALE"
+      ∨ s = "fe->overflow_samps[fe->num_overflow_samps+i]=sample/FLOAT32_SCALE" then .storeOvf "fe->num_overflow_samps+i"
+  else if s = "fe->overflow_samps[i]=(float32)sample/FLOAT32_SCALE" then .storeOvf "i"
+  else if s = "if(fe->swap)SWAP_FLOAT32(fe->overflow_samps+fe->num_overflow_samps+i)" then .swapStored "fe->num_overflow_samps+i"
+  else if s = "if(fe->swap)SWAP_FLOAT32(fe->overflow_samps+i)" then .swapStored "i"
+  else if s = "if(fe->dither)sample+=(int16)((!(s3_rand_int31()%4))?1:0)" then .ditherInt
+  else if s = "fe->spch[i]=sample" ∨ s = "fe->spch[i+offset]=sample" then .storeSpch
+  else if s = "fe->spch[i]=sample*FLOAT32_SCALE" ∨ s = "fe->spch[i+offset]=sample*FLOAT32_SCALE" then .storeSpchUp
+  else if s = "fe->spch[i]=(sample*FLOAT32_SCALE+((!(s3_rand_int31()%4))?FLOAT32_DITHER:0.0))"
+      ∨ s = "fe->spch[i+offset]=(sample*FLOAT32_SCALE+((!(s3_rand_int31()%4))?FLOAT32_DITHER:0.0))" then .storeSpchUpDither
+  else .other
+
+/-- split a statement list into its per-sample loops: a loop starts at a load and runs to the next
+load (statements before the first load belong to no loop) -/
+def loopsGo : List Step → Option (List Step) → List (List Step)
+  | [], none => []
+  | [], some l => [l]
+  | .load :: r, none => loopsGo r (some [])
+  | .load :: r, some l => l :: loopsGo r (some [])
+  | _ :: r, none => loopsGo r none
+  | st :: r, some l => loopsGo r (some (l ++ [st]))
+
+def loopsOf (l : List Step) : List (List Step) := loopsGo l none
+
+/-- the effect of the steps of one loop on the sample in flight; the second component remembers
+where the sample was stored, a swap of a *different* stored location is a failure -/
+def interp (m : Mode) : List Step → Option (Cell × String) → Option (Cell × String)
+  | [], st => st
+  | _ :: _, none => none
+  | .load :: r, some st => interp m r (some st)
+  | .swapLocal :: r, some (c, loc) => interp m r (some (swapIf m c, loc))
+  | .storeOvf idx :: r, some (c, _) => interp m r ((scaleDown c).map fun c' => (c', idx))
+  | .swapStored idx :: r, some (c, loc) => interp m r (if idx = loc then some (swapIf m c, loc) else none)
+  | .ditherInt :: r, some (c, loc) => interp m r (if m.dither then (arith c).map fun c' => (addDither c', loc) else some (c, loc))
+  | .storeSpch :: r, some (c, loc) => interp m r ((arith c).map fun c' => (c', loc))
+  | .storeSpchUp :: r, some (c, loc) => interp m r ((scaleUp c).map fun c' => (c', loc))
+  | .storeSpchUpDither :: r, some (c, loc) => interp m r ((scaleUp c).map fun c' => (addDither c', loc))
+  | .other :: r, some st => interp m r (some st)
+
+def run1 (m : Mode) (l : List Step) (c : Cell) : Option Cell := (interp m l (some (c, ""))).map (·.1)
+
+/-- the per-sample loops of function `f` in the regenerated source text -/
+def loopsIn (f : String) : List (List Step) :=
+  match SSVerif.Generated.feSwapSites.find? (·.1 = f) with
+  | some (_, stmts) => loopsOf (stmts.map readStmt)
+  | none => []
+
+theorem run1_ovf_loop (m : Mode) (idx : String) (tail : List Step) (ht : tail = [] ∨ tail = [.other]) (c : Cell) :
+    run1 m ([.swapLocal, .storeOvf idx, .swapStored idx] ++ tail) c = cellToOvf (m.withEnc .int16) c := by
+  obtain ⟨sw, d, e⟩ := m
+  obtain ⟨i, rev, par, unit, dith⟩ := c
+  rcases ht with rfl | rfl <;> cases sw <;> cases rev <;> cases unit <;>
+    simp [run1, interp, cellToOvf, Mode.withEnc, swapIf, scaleDown]
+
+theorem run1_int16_reader (m : Mode) (c : Cell) :
+    run1 m [.swapLocal, .ditherInt, .storeSpch] c = cellToSpch m .int16 c := by
+  obtain ⟨sw, d, e⟩ := m
+  obtain ⟨i, rev, par, unit, dith⟩ := c
+  cases sw <;> cases d <;> cases rev <;> cases unit <;>
+    simp [run1, interp, cellToSpch, swapIf, arith, addDither]
+
+theorem run1_float32_reader (m : Mode) (c : Cell) :
+    (if m.dither then run1 m [.swapLocal, .storeSpchUpDither] c else run1 m [.swapLocal, .storeSpchUp] c)
+      = cellToSpch m .float32 c := by
+  obtain ⟨sw, d, e⟩ := m
+  obtain ⟨i, rev, par, unit, dith⟩ := c
+  cases sw <;> cases d <;> cases rev <;> cases unit <;>
+    simp [run1, interp, cellToSpch, swapIf, scaleUp, addDither]
+
+/-- **The per-sample loops of the current source text are the model's per-cell functions.**  For the
+statements regenerated from `fe_interface.c` / `fe_sigproc.c` (read by `readStmt`, split into loops at
+the loads): each of the four overflow helpers has exactly one per-sample loop and it is
+`cellToOvf` for int16 calls (swap, scale down, swap back **the location just stored**); each int16
+reader has exactly one loop and it is `cellToSpch .int16`; each float32 reader has exactly two loops,
+the first (the `if (fe->dither)` branch) and the second (the `else` branch) together are
+`cellToSpch .float32`.  For every mode and every cell, including cells in the wrong order (both sides
+fail alike). -/
+theorem C06_swap_loops_are_model (m : Mode) (c : Cell) :
+    (∀ f ∈ ["overflow_append", "read_overflow_frame", "create_overflow_frame", "append_overflow_frame"],
+      ∃ l, loopsIn f = [l] ∧ run1 m l c = cellToOvf (m.withEnc .int16) c) ∧
+    (∀ f ∈ ["fe_read_frame_int16", "fe_shift_frame_int16"],
+      ∃ l, loopsIn f = [l] ∧ run1 m l c = cellToSpch m .int16 c) ∧
+    (∀ f ∈ ["fe_read_frame_float32", "fe_shift_frame_float32"],
+      ∃ ld ln, loopsIn f = [ld, ln] ∧
+        (if m.dither then run1 m ld c else run1 m ln c) = cellToSpch m .float32 c) := by
+  refine ⟨?_, ?_, ?_⟩
+  · intro f hf
+    simp only [List.mem_cons, List.mem_nil_iff, or_false] at hf
+    rcases hf with rfl | rfl | rfl | rfl
+    · exact ⟨_, by decide +kernel, run1_ovf_loop m "fe->num_overflow_samps+i" [] (Or.inl rfl) c⟩
+    · exact ⟨_, by decide +kernel, run1_ovf_loop m "fe->num_overflow_samps+i" [.other] (Or.inr rfl) c⟩
+    · exact ⟨_, by decide +kernel, run1_ovf_loop m "i" [.other] (Or.inr rfl) c⟩
+    · exact ⟨_, by decide +kernel, run1_ovf_loop m "fe->num_overflow_samps+i" [.other] (Or.inr rfl) c⟩
+  · intro f hf
+    simp only [List.mem_cons, List.mem_nil_iff, or_false] at hf
+    rcases hf with rfl | rfl
+    · exact ⟨_, by decide +kernel, run1_int16_reader m c⟩
+    · exact ⟨_, by decide +kernel, run1_int16_reader m c⟩
+  · intro f hf
+    simp only [List.mem_cons, List.mem_nil_iff, or_false] at hf
+    rcases hf with rfl | rfl
+    · exact ⟨_, _, by decide +kernel, run1_float32_reader m c⟩
+    · exact ⟨_, _, by decide +kernel, run1_float32_reader m c⟩
+
+/-- a swap-back of another location than the one just stored is read as a failure (seeded class
+"swap-back indexed from the buffer start") -/
+example (m : Mode) (c : Cell) :
+    run1 m [.swapLocal, .storeOvf "fe->num_overflow_samps+i", .swapStored "i"] c = none := by
+  obtain ⟨i, rev, par, unit, dith⟩ := c
+  cases h : scaleDown (swapIf m ⟨i, rev, par, unit, dith⟩) <;> simp [run1, interp, h]
+
+/-! ## `SWAP_FLOAT32` reverses the four bytes -/
+
+/-- the five locations the body of `SWAP_FLOAT32` assigns: `tmp` and the bytes `ux[0..3]` of `*x` -/
+inductive Loc | tmp | b0 | b1 | b2 | b3
+  deriving DecidableEq, Repr
+
+def readLoc (s : String) : Option Loc :=
+  if s = "tmp" then some .tmp else if s = "ux[0]" then some .b0 else if s = "ux[1]" then some .b1
+  else if s = "ux[2]" then some .b2 else if s = "ux[3]" then some .b3 else none
+
+/-- the 20 assignments `L=R` between two of the five locations; anything else is not understood -/
+def readAssign (s : String) : Option (Loc × Loc) :=
+  ([Loc.tmp, .b0, .b1, .b2, .b3].flatMap fun l => [Loc.tmp, .b0, .b1, .b2, .b3].map fun r => (l, r)).find? fun p =>
+    let name (x : Loc) : String := match x with
+      | .tmp => "tmp" | .b0 => "ux[0]" | .b1 => "ux[1]" | .b2 => "ux[2]" | .b3 => "ux[3]"
+    decide (s = name p.1 ++ "=" ++ name p.2)
+
+/-- memory of the macro body: `tmp` (uninitialised = `none`) and the four bytes -/
+structure Mem (β : Type) where
+  tmp : Option β
+  b0 : β
+  b1 : β
+  b2 : β
+  b3 : β
+
+def Mem.get {β : Type} (s : Mem β) : Loc → Option β
+  | .tmp => s.tmp | .b0 => some s.b0 | .b1 => some s.b1 | .b2 => some s.b2 | .b3 => some s.b3
+
+def Mem.set {β : Type} (s : Mem β) (l : Loc) (v : β) : Mem β :=
+  match l with
+  | .tmp => { s with tmp := some v } | .b0 => { s with b0 := v } | .b1 => { s with b1 := v }
+  | .b2 => { s with b2 := v } | .b3 => { s with b3 := v }
+
+/-- run a list of assignments; reading the uninitialised `tmp` or an unreadable statement fails -/
+def execAssigns {β : Type} : List (Option (Loc × Loc)) → Mem β → Option (Mem β)
+  | [], s => some s
+  | none :: _, _ => none
+  | some (l, r) :: rest, s => (s.get r).bind fun v => execAssigns rest (s.set l v)
+
+/-- **`SWAP_FLOAT32` reverses the bytes of its operand** — for the macro text regenerated from
+`byteorder.h`: the body declares `uint8 tmp, *ux = (uint8 *)(x)` and its assignment statements, run on
+any four bytes, leave `ux[0..3] = b3 b2 b1 b0`. -/
+theorem C06_swap_macro_float32_reverses :
+    SSVerif.Generated.feSwapFloat32Decl = "uint8tmp,*ux=(uint8*)(x)" ∧
+    ∀ {β : Type} (b0 b1 b2 b3 : β),
+      (execAssigns (SSVerif.Generated.feSwapFloat32Stmts.map readAssign) ⟨none, b0, b1, b2, b3⟩).map
+        (fun s => (s.b0, s.b1, s.b2, s.b3)) = some (b3, b2, b1, b0) := by
+  refine ⟨rfl, ?_⟩
+  have h : SSVerif.Generated.feSwapFloat32Stmts.map readAssign
+      = [some (.tmp, .b3), some (.b3, .b0), some (.b0, .tmp), some (.tmp, .b2), some (.b2, .b1), some (.b1, .tmp)] := by
+    decide +kernel
+  intro β b0 b1 b2 b3
+  rw [h]
+  rfl
+
 /-! ## non-vacuity and sensitivity of the failure outcome -/
 
 /-- swap on, dither on, int16 calls, window 5, shift 2: 3+1+0+4+1 samples with limits, then `fe_end` -/
